@@ -25,7 +25,9 @@ def grids(ctx, scale):
     ns = sorted({1, 2, 3, 5, 10, 30, 100, 1000, 10 ** 4, 10 ** 5, 10 ** 6, 10 ** 7, 10 ** 8, 10 ** 9}
                 | {int(10 ** (rng.random() * 9)) or 1 for _ in range(6 * scale)})
     ps = sorted({0.0, 1.0, 0.5, 0.01, 0.99, 0.1, 0.9, 1e-9, 1 - 1e-9, 0.25, 1 / 3} | {rng.random() for _ in range(4 * scale)})
-    cs = sorted({0.5, 0.8, 0.9, 0.95, 0.99, 0.999, 1e-12, 1 - 1e-12, 0.01, 0.3} | {rng.random() for _ in range(4 * scale)})
+    cs = sorted({0.5, 0.8, 0.9, 0.95, 0.99, 0.999, 1e-12, 1 - 1e-12, 0.01, 0.3} | {rng.random() for _ in range(4 * scale)}
+                # next to the ends of (0,1): the largest doubles below 1, the smallest above 0
+                | {1 - 2.0 ** -53, 1 - 3 * 2.0 ** -53, 1 - 2.0 ** -52, 1 - 1e-13, 1 - 1e-15, 1 - 1e-9, 1e-15, 1e-100, 5e-324, 2.0 ** -53})
     alphas = sorted({k / 1024 for k in range(1, 1024)} | {1e-12, 1e-9, 1e-6, 1 - 1e-6, 1 - 1e-12} | {rng.random() for _ in range(200 * scale)}
                     # the far tails: every binade boundary region down to the smallest positive float, and next to 1
                     | {10.0 ** -k for k in (13, 14, 15, 16, 17, 18, 20, 25, 30, 50, 80, 100, 113, 120, 150, 200, 250, 300, 307, 308, 310, 320)}
@@ -142,7 +144,10 @@ def run(ctx, with_model=True):
                 for m in METHODS:
                     reqs.append({"op": "stats", "kind": "ci", "n": mant_exp(float(n)), "p": mant_exp(p), "confidence": mant_exp(c), "method": m})
                     plan.append(("ci", n, p, c, m))
-    for m in ["Wald", "WALD", "Agresti-Coull", "AGRESTI-COULL", "wilson", "", "wald ", "agresti_coull", "exact", "clopper-pearson"]:
+    for m in ["Wald", "WALD", "Agresti-Coull", "AGRESTI-COULL", "wilson", "", "wald ", "agresti_coull", "exact", "clopper-pearson",
+              # names that only LOOK like (or fold to) a known one: long s, st ligatures, fullwidth, Kelvin / dotted-I style case pairs, zero-width characters
+              "agre\u017fti-coull", "agre\ufb06i-coull", "agre\ufb05i-coull", "\uff57ald", "wald\u200b", "\u200bwald", "w\u0430ld", "WA\u212aLD".replace("\u212a", "") + "\u212a"[:0],
+              "agresti\u2010coull", "agresti\u2013coull", "Agresti\u00adCoull", "wa\u0131d", "WALD\u0307", "ＷＡＬＤ", "agresti-coull\n", " wald", "Wald\x00"]:
         reqs.append({"op": "stats", "kind": "ci", "n": mant_exp(10.0), "p": mant_exp(0.5), "confidence": mant_exp(0.95), "method": m})
         plan.append(("ci", 10, 0.5, 0.95, m))
     answers = [None] * len(reqs)
